@@ -34,7 +34,7 @@ func (f FileSpec) descriptors(caseDir string) (*pluginpb.CodeGeneratorRequest, s
 	}
 	other := &descriptorpb.FileDescriptorProto{
 		Name: sp(caseDir + "/other.proto"), Package: sp("verif.other"), Syntax: sp("proto3"),
-		Options:     &descriptorpb.FileOptions{GoPackage: sp("verifgen/cases/" + caseDir + "/other")},
+		Options:     &descriptorpb.FileOptions{GoPackage: sp("verifgen/cases/" + caseDir + "/" + f.otherPkg())},
 		MessageType: []*descriptorpb.DescriptorProto{{Name: sp("Page"), Field: bytesField()}},
 	}
 	wk := protodesc.ToFileDescriptorProto(wrapperspb.File_google_protobuf_wrappers_proto)
